@@ -321,8 +321,10 @@ def run_core(c):
             ring, p = pos[i]
             assign.append([t, ring, p, {'flowrate': flows[i]}])
             power[str(i + 1)] = spec_from(wmap[i])
-        return {'setup': {}, 'core': {'inlet': 623.15, 'length': L, 'pitch': 0.064, 'gap_model': gm,
-                                       'bypass_fraction': 0.0 if gm == 'none' else 0.05},
+        setup = {'param_update_tol': c['tol']} if c.get('tol') else {}
+        return {'setup': setup, 'core': {'inlet': 623.15, 'length': L, 'pitch': 0.064, 'gap_model': gm,
+                                          'bypass_fraction': 0.0 if gm == 'none' else 0.05,
+                                          'coolant': c.get('coolant', 'sodium_se2anl_425')},
                 'types': {t: types[t] for t in sorted(set(x for x in layout if x))},
                 'assign': assign, 'power': {'asm': power}}
     flows0 = {i: round(0.8 + 0.11 * ((i * 3) % 7), 4) for i, t in enumerate(lay) if t}
@@ -424,6 +426,11 @@ def cases(tier):
             for gm in ('flow', 'no_flow', 'duct_average'):
                 core.append(dict(layout=lay, gap_model=gm, elements=[1, 2, 3, 4, 5]))
         core.append(dict(layout=(['A', 'B', 'A'] * 7)[:19], gap_model='flow', elements=[1, 3]))
+        # temperature-dependent coolant, with and without the correlation-update tolerance
+        for lay in (['A'] * 7, ['A', 'B', 'A', 'B', 'A', 'B', 'A']):
+            for tol in (0.0, 0.01):
+                for gm in ('flow', 'none'):
+                    core.append(dict(layout=lay, gap_model=gm, elements=[1, 2], coolant='sodium', tol=tol))
     else:
         import itertools
         for combo in itertools.product([None, 'A', 'B'], repeat=7):
@@ -434,6 +441,10 @@ def cases(tier):
                      ['A', 'D', 'B', None, 'A', 'A', 'B'], ['D', 'D', 'A', 'B', 'D', None, 'A']]):
             for gm in ('no_flow', 'duct_average', 'none'):
                 core.append(dict(layout=lay, gap_model=gm, elements=[1, 2, 3, 4, 5]))
+        for lay in (['A'] * 7, ['A', 'B', 'A', 'B', 'A', 'B', 'A'], ['B', 'A', None, 'A', 'A', 'B', 'A']):
+            for tol in (0.0, 0.01, 0.05):
+                for gm in ('flow', 'none', 'no_flow'):
+                    core.append(dict(layout=lay, gap_model=gm, elements=[1, 2, 3, 4, 5], coolant='sodium', tol=tol))
         pat = (['A', 'B', 'A', 'A', 'B'] * 4)[:19]
         core.append(dict(layout=pat, gap_model='flow', elements=[1, 2, 3, 4, 5]))
         for vac in range(19):
